@@ -91,8 +91,13 @@ CALLER_FILTERS = ['ignore', 'ignore', 'error', 'always', 'default', 'error']
 CALLER_FILTER = ['ignore']     # the caller's own process-wide warnings action while the call runs (none of the solver's business)
 
 
+CALLER_ERRSTATES = [None, None, None, 'ignore', 'warn', 'raise']
+CALLER_ERRSTATE = [None]       # the caller's own NumPy floating-point error handling (np.seterr / np.errstate) while the call runs
+
+
 def call(f, *a, **k):
-    with warnings.catch_warnings():
+    import contextlib
+    with warnings.catch_warnings(), (np.errstate(all=CALLER_ERRSTATE[0]) if CALLER_ERRSTATE[0] else contextlib.nullcontext()):
         warnings.simplefilter(CALLER_FILTER[0])
         try:
             return ('ret', f(*a, **k))
@@ -104,10 +109,12 @@ def twin(ctx, Model, spec, scripts, opts, a, b, a_label, b_label, case):
     """A: solve(start, end); B: loop over the reference period list."""
     from .common import h64
     CALLER_FILTER[0] = CALLER_FILTERS[h64(['wf', case]) % len(CALLER_FILTERS)]    # both sides run under the same caller-side warnings action
+    CALLER_ERRSTATE[0] = CALLER_ERRSTATES[h64(['es', case]) % len(CALLER_ERRSTATES)]       # ... and the same NumPy error state
     try:
         return _twin(ctx, Model, spec, scripts, opts, a, b, a_label, b_label, case)
     finally:
         CALLER_FILTER[0] = 'ignore'
+        CALLER_ERRSTATE[0] = None
 
 
 def _twin(ctx, Model, spec, scripts, opts, a, b, a_label, b_label, case):
@@ -223,6 +230,10 @@ def run_shard(ctx):
                 for rep in range(ctx.pick(2, 3)):
                     opts = option_set(rng)
                     scripts = random_scripts(rng, n)
+                    if rng.random() < 0.3:
+                        # a numerical fault or an exception somewhere along the way: both sides stop (or carry on) at the same point,
+                        # in the same state - the failing period's values included
+                        scripts = random_scripts(rng, n, rng.randrange(n), rng.choice(['warn', 'warn', 'nan', 'pinf', 'exc']))
                     ai = None if a is None else rng.randrange(len(labels[a]))
                     bi = None if b is None else rng.randrange(len(labels[b]))
                     al = None if a is None else labels[a][ai]
